@@ -281,8 +281,13 @@ func (i *interpreter) renderComposite(fr *frame, t types.Type, v value, verb byt
 					sb.WriteByte('?')
 				}
 			}
+		case *lazyVal:
+			rec(t, i.forceIface(fr, x), depth)
 		case structure:
-			st, _ := t.Underlying().(*types.Struct)
+			var st *types.Struct
+			if t != nil {
+				st, _ = t.Underlying().(*types.Struct)
+			}
 			sb.WriteByte('{')
 			for k := range x {
 				if k > 0 {
@@ -297,8 +302,10 @@ func (i *interpreter) renderComposite(fr *frame, t types.Type, v value, verb byt
 			sb.WriteByte('}')
 		case []value:
 			var et types.Type
-			if sl, ok := t.Underlying().(*types.Slice); ok {
-				et = sl.Elem()
+			if t != nil {
+				if sl, ok := t.Underlying().(*types.Slice); ok {
+					et = sl.Elem()
+				}
 			}
 			sb.WriteByte('[')
 			for k := range x {
@@ -341,7 +348,20 @@ func (i *interpreter) renderComposite(fr *frame, t types.Type, v value, verb byt
 func (i *interpreter) sprintf(fr *frame, format value, args []value) ([]value, []value) {
 	f, ok := format.(string)
 	if !ok {
-		unsupported("fmt: symbolic format string")
+		// a format with symbolic bytes: fork over their values
+		fs, isS := format.(sstr)
+		if !isS {
+			unsupported("fmt: format is not a string")
+		}
+		buf := make([]byte, len(fs.b))
+		for k, b := range fs.b {
+			if c, conc := b.(uint8); conc {
+				buf[k] = c
+			} else {
+				buf[k] = byte(i.path.concretize(byteTerm(b)))
+			}
+		}
+		f = string(buf)
 	}
 	var out []value
 	var wrapped []value
